@@ -214,7 +214,8 @@ def eval_cases(ctx, name, text, timeout=600):
     with open(path, "w", encoding="utf-8") as f:
         f.write(text)
     for attempt in (0, 1):
-        rc, out, err, dt = run(["coqc", "-noglob"] + QFLAGS + [path], timeout, cwd=COQ)
+        rc, out, err, dt = run(["bash", "-c", "ulimit -v 12000000; exec coqc -noglob \"$@\"", "coqc"] + QFLAGS + [path],
+                               timeout, cwd=COQ)
         if rc == 0 or rc not in (124, 137, -9):
             break
     return rc, clean_noise(out), clean_noise(err), dt
